@@ -16,6 +16,7 @@ import (
 )
 
 type SpecEnv struct {
+	evBase string // events() is counted relative to this term (callee contracts evaluated at a call site)
 	x      *Exec
 	st     *State
 	old    *State
@@ -694,6 +695,11 @@ func (env *SpecEnv) call(n *ast.CallExpr) *Val {
 			t := env.resolveType(n.Args[1])
 			return mkBool(tAnd(tNot(tEq(a.L[0], "0")), tEq("(typeof_ "+a.L[0]+")", num(x.typeCode(t)))))
 		case "events":
+			// number of effectful calls since the entry of the function the
+			// contract belongs to (at a call site: since the call began)
+			if env.evBase != "" {
+				return mkInt(types.Typ[types.Int], tSub(env.st.events, env.evBase))
+			}
 			return mkInt(types.Typ[types.Int], env.st.events)
 		}
 		if _, isVar := env.vars[id.Name]; !isVar {
